@@ -584,6 +584,17 @@ impl Writer {
 
                 #[cfg(feature = "verif")]
                 crate::verif::point("merge.copied");
+                // write the KeyDir entry to the hint file for fast recovery. This comes before the
+                // KeyDir is updated: at startup only the hint file of a merge file is read, so an
+                // entry must never point at a copy that the hint file does not list (if this append
+                // fails the entry keeps pointing at the file it was copied from, which then stays).
+                merge_hintfile_writer.append(&HintFileEntry {
+                    tstamp: keydir_entry.tstamp,
+                    len: nbytes,
+                    pos: merge_pos,
+                    key: keydir_entry.key().clone(),
+                })?;
+
                 // update keydir so it points to the merge data file
                 keydir_entry.fileid = *merge_fileid;
                 keydir_entry.len = nbytes;
@@ -592,14 +603,6 @@ impl Writer {
                 // the merge file must only contain live keys
                 let mut stats = self.ctx.stats.entry(*merge_fileid).or_default();
                 stats.add_live();
-
-                // write the KeyDir entry to the hint file for fast recovery
-                merge_hintfile_writer.append(&HintFileEntry {
-                    tstamp: keydir_entry.tstamp,
-                    len: keydir_entry.len,
-                    pos: keydir_entry.pos,
-                    key: keydir_entry.key().clone(),
-                })?;
 
                 #[cfg(feature = "verif")]
                 crate::verif::point("merge.hinted");
